@@ -13,24 +13,29 @@ def main():
     skip_suite = '--skip-suite' in sys.argv
     patch = os.path.join(mdir, 'patch.diff')
     res = dict(mutant=os.path.basename(mdir.rstrip('/')), property=prop)
+    demo_only = '--demo-only' in sys.argv
+    # the agents' build.sh take either the worktree or its include directory
+    barg = wt if 'WT=' in open(os.path.join(mdir, 'build.sh')).read() else wt + '/include' 
     sh('git checkout -- .', cwd=wt)
     rc, out = sh('git apply --check %s' % patch, cwd=wt)
     res['applies'] = rc == 0
     if rc != 0:
         print(json.dumps(res)); return 1
     # demo without the change
-    rc0, out0 = sh('bash build.sh %s/include && ./demo' % wt, cwd=mdir, timeout=900)
+    rc0, out0 = sh('bash build.sh %s && ./demo' % barg, cwd=mdir, timeout=900)
     res['demo_without'] = rc0
     sh('git apply %s' % patch, cwd=wt)
-    if not skip_suite:
+    if not skip_suite and not demo_only:
         if not os.path.exists(os.path.join(wt, '_build', 'build.ninja')):
             sh('cmake -G Ninja -S . -B _build -DCMAKE_BUILD_TYPE=RelWithDebInfo -DCMAKE_CXX_STANDARD=14 -DCMAKE_CXX_FLAGS=-Wno-error -DBOOST_GIL_BUILD_EXAMPLES=OFF -DBOOST_GIL_BUILD_HEADER_TESTS=OFF', cwd=wt)
         rc, out = sh('cmake --build _build -j12 2>&1 | tail -3 && ctest --test-dir _build -j12 --timeout 900 2>&1 | tail -4', cwd=wt, timeout=3600)
         m = re.search(r'(\d+)% tests passed, (\d+) tests failed out of (\d+)', out)
         res['suite'] = m.group(0) if m else out[-300:]
-    rc1, out1 = sh('bash build.sh %s/include && timeout 120 ./demo' % wt, cwd=mdir, timeout=900)
+    rc1, out1 = sh('bash build.sh %s && timeout 120 ./demo' % barg, cwd=mdir, timeout=900)
     res['demo_with'] = rc1
     sh('git checkout -- .', cwd=wt)
+    if demo_only:
+        print(json.dumps(res)); return 0
     # now the checks against /repo
     rc, out = sh('git -C /repo status --porcelain')
     if out.strip():
